@@ -21,7 +21,18 @@ Tie of the theorems of NxProps/C14.lean to the tree:
    retransmissions happen) under duplication, reordering, loss of data and of acknowledgements within the retransmission
    budget, re-chunking of the lite byte stream; per call the same oracle as above, per connection the minor version and
    structure-header flag of BOTH real RMCClient objects against the model's `conn` line (both_ends_same_codec,
-   negotiated_minor_is_handshake); rpc_request/response_over_faulty_network are the theorems this ties.
+   negotiated_minor_is_handshake); rpc_request/response_over_faulty_network are the theorems this ties;
+ * SEVERAL protocols on one connection, in both directions (harness/c14_mixed.py): an ordinary protocol next to a
+   response-less one (Notification, MessageDelivery, NintendoNotification: found from `set noresponse` in the definitions),
+   the response-less protocol handled by the accepting side, the connecting side, both, neither; sequences of steps in which
+   one-way calls stand directly in front of ordinary calls, several in a row, mixed groups in flight together, ordinary calls
+   whose implementation pushes one-way calls to its caller, stubs and unserved protocols in between; over the in-memory pair
+   (every negotiated minor version, direct / yielding sends, call id counters near the wrap) and over the real PRUDP leg of every
+   shipped profile under the fault regimes; oracle: every ordinary call gets exactly its implementation's values (never
+   NotImplemented for an implemented method), only stubs / unserved protocols yield NotImplemented, every one-way call reaches
+   a registered handler's implementation exactly once with the arguments given; every instrumented RMCClient's requests / received
+   datagrams / resumptions are replayed through the Lean call-matching machine (rpc_mixed_one_way_own_result,
+   one_way_request_has_its_own_call_id); failing sessions are shrunk before they are reported.
 """
 import multiprocessing, os, time
 import vf
@@ -29,6 +40,7 @@ from schema_proto2lean import load_env
 import schema_tie as T
 import schema_rpc as R
 import c14_wire as W14
+import c14_mixed as X14
 from corr_C13 import obligations, proto_names
 
 LEVEL = "proof"
@@ -37,7 +49,7 @@ WIRE_CORE = ("ranking", "authentication", "matchmaking", "datastore")      # str
 
 
 def _run_task(t):
-    return W14.task(t[1]) if t[0] == "wire" else R.task(t[1])
+    return W14.task(t[1]) if t[0] == "wire" else (X14.task(t[1]) if t[0] == "mixed" else R.task(t[1]))
 
 
 def run(ctx):
@@ -54,10 +66,15 @@ def run(ctx):
                 "header flags) with a fresh pair with fresh Settings, and the shared Settings objects compared with their snapshot; "
                 "over the real PRUDP leg in simulation: %s generated modules x the 4 shipped settings profiles (default v1, 3ds v0, friends v0, switch lite) x %s sessions each "
                 "(one connection, 14..15 calls incl. a group in flight together, fragmenting values, with/without credentials, differing minor versions on the two ends) under "
-                "clean / duplicating / reordering / lossy / ack-losing / all-at-once networks (every distinct datagram lost at most once) resp. a re-chunked byte stream. "
+                "clean / duplicating / reordering / lossy / ack-losing / all-at-once networks (every distinct datagram lost at most once) resp. a re-chunked byte stream; "
+                "several protocols on ONE connection in both directions: %s ordinary modules x every module with a response-less protocol (Notification, MessageDelivery, NintendoNotification) x "
+                "%s in-memory sessions (handler for the response-less protocol on the accepting side / the connecting side / both / neither, cyclically; every minor version; direct and yielding sends; "
+                "call id counters fresh and near the wrap) + one session per shipped profile over the simulated network: 12..30 calls per session — one-way calls directly in front of ordinary calls, "
+                "runs of one-way calls, mixed groups in flight together, implementations that push one-way calls to their caller, stubs, calls to a side that does not serve the protocol — "
+                "every call judged (values / NotImplemented / handler reached exactly once), every RMCClient's events replayed through the Lean call-matching machine. "
                 "distinct non-trivial = distinct (module, method or structure, configuration, repetition or splice) cases whose oracle held"
                 % ("1" if quick else "4", "8 (revision, extra bytes) splices" if quick else "every higher revision up to 255 and every extra length 1..16",
-                   "7 (4 fixed + 3 drawn)" if quick else "all", "6" if quick else "24"))
+                   "7 (4 fixed + 3 drawn)" if quick else "all", "6" if quick else "24", "8 (4 fixed + 4 drawn)" if quick else "all", "12" if quick else "48"))
     envs = {}
     for n in proto_names(repo):
         env, problem = load_env(protodir, repo, n)
@@ -88,8 +105,17 @@ def run(ctx):
         rest = [m for m in wire_mods if m not in core]
         wire_mods = core + ctx.rng.sample(rest, min(3, len(rest)))
     wire_tasks = [("wire", (repo, n, prof, ctx.seed, exe, 6 if quick else 24)) for n in wire_mods for prof in W14.PROFILES]
-    # interleave: the long rpc slices first, the short wire sessions fill the gaps
-    tasks = tasks[:16] + wire_tasks + tasks[16:]
+    # ---- several protocols on one connection (ordinary + response-less), both directions
+    one_way_mods = sorted(n for n, e in envs.items() if X14.one_way_protocols(e))
+    mixed_mods = sorted(n for n, e in envs.items() if X14.ordinary_protocols(e))
+    if quick:
+        core = [m for m in WIRE_CORE if m in mixed_mods]
+        rest = [m for m in mixed_mods if m not in core]
+        mixed_mods = core + ctx.rng.sample(rest, min(4, len(rest)))
+    mixed_tasks = [("mixed", (repo, n, nr, ctx.seed, exe, 12 if quick else 48, W14.PROFILES if quick else W14.PROFILES * 3))
+                   for n in mixed_mods for nr in one_way_mods]
+    # interleave: the long rpc slices first, the short wire / mixed sessions fill the gaps
+    tasks = tasks[:16] + wire_tasks + mixed_tasks + tasks[16:]
     mp = multiprocessing.get_context("fork")
     methods, fc_cases = {}, 0
     soft, hard, worker_errors = [], [], []
@@ -121,11 +147,13 @@ def run(ctx):
         ctx.extra["worker_errors"] = ["%s: %s" % (r["module"], r["error"].strip().splitlines()[-1][:300]) for r in infra]
     seen_fc = set()
     # one violation per key: prefer the most telling failing input (a later connection misbehaving) over its cause
-    hard.sort(key=lambda d: 0 if "does not behave like a fresh pair" in d["what"] else (1 if "struct_header_auto says" in d["what"] else (3 if d.get("vkey", "").startswith("library-exception:") else 2)))
+    hard.sort(key=lambda d: (0 if "does not behave like a fresh pair" in d["what"] else (1 if "struct_header_auto says" in d["what"] else (3 if d.get("vkey", "").startswith("library-exception:") else 2)),
+                             d.get("size", 0) if d.get("vkey", "").startswith("mixed-protocols:") else 0))      # of several failing mixed sessions report the shortest
     for d in hard:
         vkey = d.get("vkey", d["key"])
         if vkey.startswith("forward-compat:"): seen_fc.add(vkey)
         if vkey.startswith("struct-roundtrip:"): seen_fc.add("forward-compat:" + vkey[len("struct-roundtrip:"):])    # a failing input for that structure is reported
+        d = {k: v for k, v in d.items() if k != "size"}
         ctx.violation(vkey, d["what"], dict({"how": "harness/schema_rpc.py: real generated classes of nintendo.nex.<module>, settings (nex.version, struct_header, pid_size)=cfg"}, **d))
     for name, sname, out in failing_obl:
         if "forward-compat:%s:%s" % (name, sname) not in seen_fc:
@@ -135,7 +163,7 @@ def run(ctx):
     # the client's call matching differs from the model on an observed burst, and no caller was affected
     mux_soft = [d for d in soft if d.get("model_disagreements")]
     soft = [d for d in soft if not d.get("model_disagreements")]
-    if mux_soft and not any(v[0].startswith("concurrent-calls:") for v in ctx.violations):
+    if mux_soft and not any(v[0].startswith(("concurrent-calls:", "mixed-protocols:")) for v in ctx.violations):
         ctx.corr_break("call-matching-correspondence", "%d bursts of concurrent calls on which RMCClient's call matching (call ids, returned bodies) differs from the model although every caller got its own values: %s" % (
             len(mux_soft), mux_soft[0]["what"][:300]), mux_soft[0])
     if soft and not ctx.violations and not ctx.known_hits:
@@ -154,6 +182,11 @@ def run(ctx):
     ctx.extra["wire_calls_ok"] = sum(c for t, c in ctx.tags.items() if t.startswith("wire-call:") and t.endswith(":ok"))
     ctx.extra["wire_datagrams"] = ctx.tags.get("wire:datagrams", 0)
     ctx.extra["wire_network_faults"] = ctx.tags.get("wire:faults", 0)
+    ctx.extra["mixed_protocol_sessions"] = sum(c for t, c in ctx.tags.items() if t.startswith("mixed:") and ":handlers-" in t)
+    ctx.extra["mixed_protocol_sessions_over_prudp"] = sum(c for t, c in ctx.tags.items() if t.startswith("mixed-wire:"))
+    ctx.extra["mixed_protocol_calls_ok"] = sum(c for t, c in ctx.tags.items() if t.startswith("mixed-call:"))
+    ctx.extra["mixed_one_way_calls_ok"] = sum(c for t, c in ctx.tags.items() if t.startswith("mixed-call:") and ":nr:" in t)
+    ctx.extra["mixed_call_matching_lines_replayed"] = ctx.tags.get("mixed:mux-lines", 0)
     ctx.extra["versioned_structures"] = sum(len([s for s in e.versioned() if s["name"] in e.structs]) for e in envs.values())
     ctx.extra["disagreements"] = len(hard) + len(soft)
     ctx.assumptions.append("in the per-method sweep the PRUDP layer between the two RMCClient instances is replaced by a pair of in-memory queues; the whole path (real PRUDP endpoints, "
